@@ -72,21 +72,19 @@ def _worker_cleanup():
         shutil.rmtree(sc, ignore_errors=True)
 
 
-def sweep_dead_scratch():
-    """remove the scratch directories of worker processes that no longer exist (pool workers are not given the
-    chance to clean up after themselves)"""
-    import glob
+_POOL_PIDS = set()
+
+
+def sweep_own_scratch():
+    """remove the scratch directories of this check's own pool workers (they are not given the chance to clean up
+    after themselves) - and of nobody else: other checks may be running next to this one"""
     import shutil
 
-    root = "/dev/shm" if os.path.isdir("/dev/shm") and os.access("/dev/shm", os.W_OK) else None
-    if root is None:
-        import tempfile
+    from . import seams
 
-        root = tempfile.gettempdir()
-    for d in glob.glob(os.path.join(root, "dsim-*")):
-        pid = d.rsplit("-", 1)[-1]
-        if pid.isdigit() and not os.path.exists(f"/proc/{pid}"):
-            shutil.rmtree(d, ignore_errors=True)
+    root = os.path.dirname(seams.worker_scratch_base())
+    for pid in sorted(_POOL_PIDS | {os.getpid()}):
+        shutil.rmtree(os.path.join(root, f"dsim-{pid}"), ignore_errors=True)
 
 
 def _one(spec, prop, base_seed, index, keep_events=False, tier="quick"):
@@ -399,6 +397,7 @@ def cmd_check(prop, tier, base_seed, workers, runs_override=None, wall_cap=None,
 
             submit_more()
             while pending:
+                _POOL_PIDS.update(getattr(ex, "_processes", None) or {})
                 done = None
                 for fut in as_completed(list(pending), timeout=900):
                     done = fut
@@ -631,7 +630,7 @@ def cmd_check(prop, tier, base_seed, workers, runs_override=None, wall_cap=None,
         print(f"  violation kind={a['kind']} count={a['count']} steps {a['steps_before']}->{a['steps_after']}: "
               f"{a['detail'][:300]}")
         print(f"VIOLATION property={prop} replay={a['replay']}")
-    sweep_dead_scratch()
+    sweep_own_scratch()
     if alarms:
         return 1
     if opt["digest_mismatches"] or selftest["mismatches"]:
